@@ -666,7 +666,7 @@ def check_c05(exe, tier, seed, verdict):
     hard = sum(1 for f in files for a in f["abs"] if a["t"] == "comment" and gram.comment_is_hard(a, f["par"]))
     cov = {"states": r.distinct, "transitions": r.generated, "traces_validated_against_impl": n + acc,
            "evaluations": n + sum(len(f["lines"]) for f in files), "distinct_nontrivial": nn + hard,
-           "rule": "TLC: every single-line-value file of the base pool (MC_Comment.tla) x every insertion of 1-2 comment lines (text with further comment characters, delimiters, quotes, brackets; with and without indentation) at every position; expectation = Meaning of the file WITHOUT the inserted lines (%d pairs, every %d-th replayed). Random: %d files with comment lines over 0x20-0x7e validated line by line (PStep on a comment line may change the pending comment only). Deletion relation without a grammar: %d files of header / entry lines whose values are outside the conventional forms (unclosed leading quote, doubled quotes, lone quote, comment characters inside quotes, trailing backslash ...) read as they are and with comment lines inserted (one file in fifty with a comment line of 64 Ki .. 200 000 bytes) - same return code, sections, keys, values. non-trivial = inserted line contains a further comment character, delimiter, quote or bracket, is indented, or directly follows an entry." % (total, sample, len(files), ndel),
+           "rule": "TLC: every single-line-value file of the base pool (MC_Comment.tla) x every insertion of 1-2 comment lines (text with further comment characters, delimiters, quotes, brackets; with and without indentation) at every position; expectation = Meaning of the file WITHOUT the inserted lines (%d pairs, every %d-th replayed). Random: %d files with comment lines over 0x20-0x7e validated line by line (PStep on a comment line may change the pending comment only). Deletion relation without a grammar: %d files of header / entry lines whose values are outside the conventional forms (unclosed leading quote, doubled quotes, lone quote, comment characters inside quotes, trailing backslash ...) read as they are and with comment lines inserted (every third pair as the only drop-in over a vendor file that defines the same keys, compared after the merge; one file in fifty with a comment line of 64 Ki .. 200 000 bytes) - same return code, sections, keys, values. non-trivial = inserted line contains a further comment character, delimiter, quote or bracket, is indented, or directly follows an entry." % (total, sample, len(files), ndel),
            "samples": samples, "exhaustive": sample == 1, "random_hard_comment_lines": hard,
            "trusted_base": ["TLC 1.8.0", "gcc ASan/UBSan", "drv.c"]}
     return cov, BASE_ASSUME, "model_checking"
@@ -713,6 +713,14 @@ def comment_deletion_pairs(exe, rnd, n, verdict):
         R = core.ROOT + "/cd%d" % (i % 16)
         sc = []
         for h, lines in ((1, base), (2, withc)):
+            if i % 3 == 1:
+                # the file as the only drop-in over a vendor file that defines the same keys: what reaches the MERGED result
+                # must not depend on the comment lines either
+                T_ = "%s/l%d" % (R, h)
+                vendor = "\n".join("k%d%sB%d" % (j, D[-1], j) for j in range(4)) + "\n[S]\n" + "\n".join("k%d%sS%d" % (j, D[-1], j) for j in range(4)) + "\n"
+                sc += ["rm %s" % hx(T_), "file %s %s" % (hx(T_ + "/usr/etc/cfg.conf"), hx(vendor)), "file %s %s" % (hx(T_ + "/etc/cfg.conf.d/x.conf"), hx("\n".join(lines) + "\n")),
+                       "readdirs %d %s %s %s %s %s %s" % (h, hx(T_ + "/usr/etc"), hx(T_ + "/etc"), hx("cfg"), hx("conf"), hx(D), hx(C)), "dump %d" % h, "free %d" % h]
+                continue
             sc += ["file %s %s" % (hx("%s/f%d.conf" % (R, h)), hx("\n".join(lines) + "\n")),
                    "readfile %d %s %s %s" % (h, hx("%s/f%d.conf" % (R, h)), hx(D), hx(C)), "dump %d" % h, "free %d" % h]
         cases.append((i, sc))
@@ -725,7 +733,7 @@ def comment_deletion_pairs(exe, rnd, n, verdict):
         if out is None or out["crash"]:
             verdict.violation("C05:deletion:crash", dict(case, crash=(out or {}).get("crash")), "reading crashed on\n%s\n%s" % ("\n".join(withc), (out or {}).get("crash", "")[:600]))
             continue
-        rd = [e for e in out["ev"] if e["op"] == "readfile"]
+        rd = [e for e in out["ev"] if e["op"] in ("readfile", "readdirs")]
         dm = [e for e in out["ev"] if e["op"] == "dump"]
         obs = [(r["rc"], (d.get("st") or {}).get("groups"), [(s_["g"], [(k["k"], k["v"]) for k in s_["keys"]]) for s_ in (d.get("st") or {}).get("secs", [])]) for r, d in zip(rd, dm)]
         if len(obs) != 2 or obs[0] != obs[1]:
